@@ -5,7 +5,7 @@ from hypothesis import strategies as st
 from vlib import arbsim, gens, sim
 
 PROP = "C08"
-RULE = ("Arbiter geometry and feature subset, 1-6 initiators each with its own granularity (>= the "
+RULE = ("Arbiter geometry and feature subset, 1-12 (thorough 16) initiators each with its own granularity (>= the "
         "arbiter's) and feature subset (err/rty forced when the arbiter has them); 30-200 cycles in "
         "which EVERY initiator drives arbitrary cyc/stb/lock/we/adr/dat_w/sel/cti/bte (held for "
         "random spans; lock without stb, cyc without stb, everybody/nobody requesting) and the target "
@@ -16,15 +16,15 @@ RULE = ("Arbiter geometry and feature subset, 1-6 initiators each with its own g
         "the acknowledge. Non-trivial = N >= 2, >= 2 ownership changes and a non-owner requesting "
         "while the owner holds the bus. Distinct = canonical JSON.")
 BUDGET = {"quick": (16, 300), "thorough": (16, 6000)}
-ESSENTIAL = ["refused_add_ghost", "contended_while_busy", "lock_hold_without_stb", "released_by_dropping_stb", "ack_while_contended",
+ESSENTIAL = ["refused_add_ghost", "add_after_elaboration", "N>=9", "contended_while_busy", "lock_hold_without_stb", "released_by_dropping_stb", "ack_while_contended",
              "arbiter_has_lock", "arbiter_lacks_lock", "mixed_granularity", "intermediate_granularity",
-             "owner_lacks_optional", "no_stall_on_bus_compat", "N=1", "N=5", "N=6"]
+             "owner_lacks_optional", "no_stall_on_bus_compat", "N=1", "N=5", "N=6", "mixed_feature_spelling", "same_signal_names"]
 ASSUMPTIONS = ["initiators are not assumed to behave; the owner is the model's owner, cross-checked every "
                "acknowledged cycle against the unique initiator that receives ack"]
 
 
 def strategy(tier):
-    return gens.with_pre(st.fixed_dictionaries({"cfg": arbsim.arbiter_config(max_n=6 if tier == "quick" else 8),
+    return gens.with_pre(st.fixed_dictionaries({"cfg": arbsim.arbiter_config(max_n=12 if tier == "quick" else 16),
                                                "sched": arbsim.schedule_spec()}))
 
 
